@@ -298,7 +298,7 @@ func runC14(id string) int {
 	// random lists
 	n := 3000
 	if *tier == "thorough" {
-		n = 50000
+		n = 400000
 	}
 	for i := 0; i < n; i++ {
 		g := prng.New(r.SeedV, "C14.lists", i)
